@@ -239,9 +239,10 @@ def shpk_case(ctx, rng):
     p, nodes, aliases, sels, nnodes = gen_package(rng)
     slack = rng.choice([0, 0, 0, 16])
     smode = rng.choice(["nul", "nul", "packed", "shared"])
-    data, info = shpk.build(p, slack, strings=smode)
+    sfirst = rng.random() < 0.25
+    data, info = shpk.build(p, slack, strings=smode, strings_first=sfirst)
     f = ctx.write("s.shpk", data)
-    ctx.case(digest(data), nnodes >= 1, ["shpk", "shpk-strings:" + smode, "shpk-dx:" + p["dx"][:4].decode().strip("\0"), "shpk-vs:%d" % len(p["vs"]), "shpk-nodes:%d" % nnodes, "shpk-defaults:%d" % (p["defaults"] is not None)],
+    ctx.case(digest(data), nnodes >= 1, ["shpk", "shpk-strings:" + smode, "shpk-layout:%s" % ("strings-before-blobs" if sfirst else "blobs-before-strings"), "shpk-dx:" + p["dx"][:4].decode().strip("\0"), "shpk-vs:%d" % len(p["vs"]), "shpk-nodes:%d" % nnodes, "shpk-defaults:%d" % (p["defaults"] is not None)],
              sample=dict(vs=len(p["vs"]), ps=len(p["ps"]), nodes=nnodes, aliases=len(aliases), length=len(data)))
     rec = ctx.call("shpk.parse", f, input_bytes=len(data))
     if not ctx.check_mon(rec, len(data), residual=False, files=[f]):
